@@ -760,6 +760,7 @@ func runC14(c *Ctx) {
 	ruleZeroOptions(c)
 	ruleSetOptionsRendered(c)
 	ruleEhloKeys(c)
+	ruleSizeParam(c) // the SIZE the client renders (any non-zero int64 up to the server's parse width) is parsed back unsigned, base 10, without wrapping
 
 	R.Rule("R-field-key", "E8+E4 pairing", "the client renders each option field under the key the server stores it from; NOTIFY separator, RRVS layout and the unitext/xtext choice agree", 10)
 	pairs := []struct{ fn, token, source string }{
